@@ -395,6 +395,91 @@ func appProxyCases(c *drv.Ctx) {
 	for _, v := range []string{"HTTP_PROXY", "http_proxy", "HTTPS_PROXY", "https_proxy", "ALL_PROXY", "all_proxy"} {
 		os.Unsetenv(v)
 	}
+	// third pass: the scanned service itself sends the scanner elsewhere. The target (in the target set)
+	// answers every request with a redirect to the bystander (not in the target set): the bystander must
+	// see no connection, and what the bystander would have said is not the target's answer.
+	for _, which := range []string{"elastic", "docker"} {
+		for _, status := range []int{301, 302, 307, 308} {
+			mu.Lock()
+			hits = 0
+			mu.Unlock()
+			loc := "http://" + by.String()
+			target, stopT := appServer(func(conn net.Conn) {
+				defer conn.Close()
+				br := bufio.NewReader(conn)
+				req, err := http.ReadRequest(br)
+				if err != nil {
+					return
+				}
+				fmt.Fprintf(conn, "HTTP/1.1 %d Redirect\r\nLocation: %s%s\r\nApi-Version: 1.41\r\nContent-Length: 0\r\nConnection: close\r\n\r\n", status, loc, req.URL.RequestURI())
+			})
+			args := []string{"--proto", "http", "-t", "1s", "--exit-delay", "20ms", "-p", fmt.Sprint(target.Port), "-w", "1", "127.0.0.1"}
+			lg := &appCapLogger{}
+			ctx, cancel := context.WithCancel(context.Background())
+			var engine scan.EngineResulter
+			var r *scan.Range
+			var err error
+			switch which {
+			case "elastic":
+				cm := newElasticCmd()
+				cm.cmd.SetOut(io.Discard)
+				cm.cmd.SetErr(io.Discard)
+				if err = cm.cmd.ParseFlags(args); err == nil {
+					if err = cm.opts.parseRawOptions(); err == nil {
+						if r, err = cm.opts.parseScanRange(cm.cmd.Flags().Args()); err == nil {
+							engine = cm.opts.newElasticScanEngine(ctx)
+						}
+					}
+				}
+			case "docker":
+				cm := newDockerCmd()
+				cm.cmd.SetOut(io.Discard)
+				cm.cmd.SetErr(io.Discard)
+				if err = cm.cmd.ParseFlags(args); err == nil {
+					if err = cm.opts.parseRawOptions(); err == nil {
+						if r, err = cm.opts.parseScanRange(cm.cmd.Flags().Args()); err == nil {
+							engine = cm.opts.newDockerScanEngine(ctx)
+						}
+					}
+				}
+			}
+			c.Eval(1)
+			c.Nontrivial(1)
+			name := fmt.Sprintf("%s 127.0.0.1:%d whose every answer is a %d redirect to %s", which, target.Port, status, loc)
+			if err != nil || engine == nil {
+				c.Fail(fmt.Sprintf("appcli:redirect:refused:%s", which), name+": command line refused: "+fmt.Sprint(err), nil)
+				cancel()
+				stopT()
+				continue
+			}
+			done := make(chan struct{})
+			go func() {
+				startScanEngine(ctx, engine, newEngineConfig(withLogger(lg), withScanRange(r), withExitDelay(20*time.Millisecond)))
+				close(done)
+			}()
+			select {
+			case <-done:
+			case <-time.After(15 * time.Second):
+				c.Fail(fmt.Sprintf("appcli:redirect:hang:%s:%d", which, status), name+": still running after 15 s", nil)
+			}
+			cancel()
+			stopT()
+			mu.Lock()
+			n := hits
+			mu.Unlock()
+			lg.mu.Lock()
+			recs := append([]string{}, lg.results...)
+			lg.mu.Unlock()
+			if n > 0 || len(recs) > 0 {
+				c.Fail(fmt.Sprintf("appcli:redirect:%s:%d", which, status), fmt.Sprintf("%s: the scanner followed the redirect: %d connection(s) reached %s, an address outside the target set, and %d record(s) were printed for the target: %.300v", name, n, by, len(recs), recs), map[string]any{"part": c.Part, "args": args})
+				continue
+			}
+			c.Outcome(which + ":redirect-not-followed")
+		}
+	}
+	for _, v := range []string{"HTTP_PROXY", "http_proxy", "HTTPS_PROXY", "https_proxy", "ALL_PROXY", "all_proxy"} {
+		os.Unsetenv(v)
+	}
 }
 
 // ---- many responding hosts through ONE scanner with few file descriptors to spare ----
